@@ -807,6 +807,16 @@ func c09Oracle(c *h.Ctx, cs *c09Case, obs *c09Obs, caseJSON any) {
 			}
 		}
 	}
+	// an item that cannot be executed is a failed item whatever the operation
+	for i, it := range cs.Items {
+		st := resp.BatchItem[i].ResultStatus
+		if it.Ext == 2 && st == kmip.ResultStatusSuccess {
+			c.Fail("C09/status/critical-extension-reported-success/"+opt, fmt.Sprintf("item %d carries a critical message extension and is reported successful", i), caseJSON)
+		}
+		if !c09Routed(cs, it.Op) && kmip.Operation(it.Op) != kmip.OperationDiscoverVersions && st == kmip.ResultStatusSuccess {
+			c.Fail("C09/status/unrouted-reported-success/"+opt, fmt.Sprintf("item %d: operation %d has no handler and is reported successful", i, it.Op), caseJSON)
+		}
+	}
 	first := -1
 	for i, bi := range resp.BatchItem {
 		if bi.ResultStatus == kmip.ResultStatusOperationFailed {
@@ -1057,14 +1067,25 @@ func driveC09(c *h.Ctx) error {
 		"item IDs present/absent alternating; (b) reject grid: every batch of length 0..2 x 4 options x version {supported, unsupported, zero} x batch count {equal, +1, -1}; "+
 		"(c) %d random batches of length 0..12 over the full alphabet (7 operations incl. routed/unrouted DiscoverVersions, nil/discover/keyed payloads, "+
 		"message extensions, value/pointer/wrapped typed errors, plain errors, payload+error returns, 5 kinds of panic value, handlers using the ID placeholder, "+
-		"option 0..4, mismatching counts, 4 supported-version sets, nil request). A case is non-trivial when it has at least one item; distinct by full case content", maxLen, nRandom))
+		"option 0..4, mismatching counts, 4 supported-version sets, nil request); (d) two requests with different continuation options in flight on one executor (oracle only). A case is non-trivial when it has at least one item; distinct by full case content", maxLen, nRandom))
 	type compactInfo struct {
 		classes []int
 		parity  int
 	}
 	var cases []c09Case
 	var compact []compactInfo
+	isConc := false
 	if c.Replay != nil {
+		if m, _ := c.Replay["case"].(map[string]any); m != nil && m["leg"] == "concurrent" {
+			isConc = true
+		}
+	}
+	if c.Replay == nil || isConc {
+		c09Concurrent(c)
+	}
+	if isConc {
+		// nothing else to replay
+	} else if c.Replay != nil {
 		cs, err := c09FromReplay(c.Replay["case"])
 		if err != nil {
 			return err
